@@ -302,6 +302,8 @@ def build_driver(ctx):
 
 
 def run_driver(engine, text, timeout=3600):
+    if not os.path.exists(driver_path()):
+        return 127, "", "driver executable missing (lake build driver failed)"
     p = subprocess.run([driver_path(), engine], input=text, capture_output=True, text=True, timeout=timeout)
     return p.returncode, p.stdout, p.stderr
 
